@@ -87,6 +87,12 @@ MUTANTS = [
 ]
 
 
+# mutants that change zorg's internals without violating the property statement
+EQUIVALENT = {
+    "m06_keep_orphan_tags": "orphan tag rows are never read back: every tag listing is derived from the tags of matching notes, so no query can tell the difference (C06 is about query answers)",
+}
+
+
 def sh(cmd: list[str], **kw) -> subprocess.CompletedProcess:
     return subprocess.run(cmd, capture_output=True, text=True, **kw)
 
@@ -124,6 +130,8 @@ def main() -> int:
         entry["wall_s"] = round(time.time() - t0, 1)
         entry["signatures"] = sorted(set(re.findall(r"^violation signature=(\S+)", p.stdout, re.M)))
         entry["caught"] = p.returncode == 1
+        if name in EQUIVALENT:
+            entry["equivalent_for_the_property"] = EQUIVALENT[name]
         if p.returncode == 2:
             entry["harness"] = p.stdout[-600:]
         report.append(entry)
@@ -134,7 +142,7 @@ def main() -> int:
     out = os.path.join(HERE, "seeded", f"mutants_report_{args.tier}.json" if not args.only else "/tmp/mutants_partial.json")
     with open(out, "w") as f:
         json.dump({"repo_head": head, "tier": args.tier, "mutants": report}, f, indent=1)
-    missed = [r["mutant"] for r in report if not r.get("caught")]
+    missed = [r["mutant"] for r in report if not r.get("caught") and not r.get("equivalent_for_the_property")]
     print(f"{len(report) - len(missed)}/{len(report)} caught; missed: {missed}")
     return 0
 
